@@ -42,7 +42,11 @@ func subset(match, lbl map[string]string) bool {
 }
 
 func symWorkloads(mapSelector bool) []wl {
-	n := zzverif.NondetInt("wl.n", 0, zzverif.Param("W", 2))
+	return symWorkloadsN(mapSelector, zzverif.Param("W", 2))
+}
+
+func symWorkloadsN(mapSelector bool, max int) []wl {
+	n := zzverif.NondetInt("wl.n", 0, max)
 	var ws []wl
 	for i := 0; i < n; i++ {
 		w := wl{ns: zzverif.NondetString("wl.ns"), name: zzverif.NondetString("wl.name")}
